@@ -627,6 +627,9 @@ pub enum Api {
     /// change the state
     ListenBad,
     ConnectBad,
+    /// set_keep_alive(Some(75 s)) / set_timeout(None): option calls are not state-machine events;
+    /// they must change neither the state nor what the running timers will do to it
+    SetKeepAlive,
     Connect,
     Close,
     Abort,
@@ -926,7 +929,7 @@ impl Harness for Fsm {
             }
             return v;
         }
-        for a in [Api::Listen, Api::Connect, Api::Close, Api::Abort, Api::Send1, Api::Recv, Api::ListenBad, Api::ConnectBad] {
+        for a in [Api::Listen, Api::Connect, Api::Close, Api::Abort, Api::Send1, Api::Recv, Api::ListenBad, Api::ConnectBad, Api::SetKeepAlive] {
             v.push((FsmEv::Api(a), 0));
         }
         v.push((FsmEv::ToPollAt, 0));
@@ -1019,6 +1022,10 @@ impl Harness for Fsm {
                             self.obs = Obs { was_listening: true, ..Default::default() };
                         }
                         r
+                    }
+                    Api::SetKeepAlive => {
+                        self.w.sock().set_keep_alive(Some(smoltcp::time::Duration::from_secs(75)));
+                        true
                     }
                     Api::ListenBad => self.w.sock().listen(0).is_ok(),
                     Api::ConnectBad => self.w.connect_bad(),
